@@ -286,6 +286,9 @@ end entity;
 architecture ar of en is
   signal s : st := s0;
   signal v : bit_vector(g downto 0);
+  constant hi : integer := v'left(1);
+  constant sx : bit_vector(1 downto 0) := 2SX"F";
+  constant ux : bit_vector(3 downto 0) := 4X"1";
 begin
   u0 : entity work.en generic map (g => 0) port map (i => i, o => open);
   pr : process (i)
